@@ -648,7 +648,9 @@ class CSSStyleSheet(cssutils.stylesheets.StyleSheet):
                 index = 0
                 # always first and only
                 if self._cssRules and self._cssRules[0].type == rule.CHARSET_RULE:
+                    # the given rule itself is not inserted
                     self._cssRules[0].encoding = rule.encoding
+                    return index
                 else:
                     self._cssRules.insert(0, rule)
             elif index != 0 or (
